@@ -2,8 +2,20 @@ package netsim
 
 import (
 	"fmt"
+	"net/netip"
 	"strings"
 	"time"
+
+	"github.com/scionproto/scion/control/beaconing"
+	"github.com/scionproto/scion/control/ifstate"
+	"github.com/scionproto/scion/pkg/scrypto"
+	"github.com/scionproto/scion/pkg/scrypto/cppki"
+	"github.com/scionproto/scion/pkg/scrypto/signed"
+	seg "github.com/scionproto/scion/pkg/segment"
+	"github.com/scionproto/scion/pkg/segment/extensions/discovery"
+	"github.com/scionproto/scion/private/trust"
+
+	"verif/rtr"
 )
 
 // Additions for the combinator checks (C28/C29): topologies that stress segment joins (parallel peering links,
@@ -33,6 +45,51 @@ func (n *Net) BeaconAt(ts time.Time, maxLen int) error {
 	n.now = ts
 	defer func() { n.now = old }()
 	return n.Beacon(maxLen)
+}
+
+// BuildControlPlane is Build without the border routers (Net.Routers stays empty): the same extenders, keys, signer and
+// interface tables, for checks that only need the segments (the combinator checks build several hundred networks).
+// Keep in step with the extender part of Build.
+func BuildControlPlane(t *Topo) (*Net, error) {
+	n := &Net{T: t, Up: map[int][]*seg.PathSegment{}, now: time.Now()}
+	for i := range t.ASes {
+		as := &t.ASes[i]
+		if as.MTU == 0 {
+			as.MTU = 1472
+		}
+		if as.NumBR == 0 {
+			as.NumBR = 1
+		}
+		if as.MaxExp == 0 {
+			as.MaxExp = 63
+		}
+		infos := map[uint16]ifstate.InterfaceInfo{}
+		for _, e := range t.Ends(i) {
+			br := as.BROf[e.If]
+			infos[e.If] = ifstate.InterfaceInfo{ID: e.If, IA: t.ASes[e.Remote].IA, LinkType: e.LT, RemoteID: e.RemoteIf,
+				MTU: e.L.MTU, InternalAddr: netip.MustParseAddrPort(rtr.SiblingAddr(br + 1))}
+		}
+		mac, err := scrypto.HFMacFactory(as.Key)
+		if err != nil {
+			return nil, err
+		}
+		maxExp := as.MaxExp
+		n.Ext = append(n.Ext, &beaconing.DefaultExtender{
+			IA: as.IA,
+			SignerGen: signerGen{trust.Signer{PrivateKey: signKey, Algorithm: signed.ECDSAWithSHA256, IA: as.IA,
+				TRCID: cppki.TRCID{ISD: as.IA.ISD(), Base: 1, Serial: 1}, SubjectKeyID: []byte("skid"),
+				Expiration:    n.now.Add(48 * time.Hour),
+				ChainValidity: cppki.Validity{NotBefore: n.now.Add(-time.Hour), NotAfter: n.now.Add(48 * time.Hour)}}},
+			MAC:                  mac,
+			Intfs:                ifstate.NewInterfaces(infos, ifstate.Config{}),
+			MTU:                  as.MTU,
+			MaxExpTime:           func() uint8 { return maxExp },
+			StaticInfo:           func() *beaconing.StaticInfoCfg { return nil },
+			DiscoveryInformation: func() *discovery.Extension { return nil },
+			EPIC:                 as.EPIC,
+		})
+	}
+	return n, nil
 }
 
 // BuiltAt is the (virtual) instant the network was instantiated; Beacon stamps its segments with it.
